@@ -249,6 +249,13 @@ func FindAllBuildFiles(config *core.Configuration, rootPath, prefix string) <-ch
 		}
 		if err := fs.Walk(rootPath, func(name string, isDir bool) error {
 			basename := filepath.Base(name)
+			if !isDir {
+				// Only directories can be skipped; returning SkipDir for a file would abandon the rest of its directory.
+				if config.IsABuildFile(basename) {
+					ch <- name
+				}
+				return nil
+			}
 			if basename == core.OutDir || (isDir && strings.HasPrefix(basename, ".") && name != ".") {
 				return filepath.SkipDir // Don't walk output or hidden directories
 			} else if isDir && !strings.HasPrefix(name, prefix) && !strings.HasPrefix(prefix, name) {
